@@ -191,3 +191,19 @@ Theorem C17_users_new_version_loads_exactly :
                   (C16.Model.max_id (C16.Model.sort_users db) 0%Z), None)).
 Proof. exact users_new_state. Qed.
 Print Assumptions C17_users_new_version_loads_exactly.
+
+(* The one database writer of the anchored modules that does NOT go through
+   AtomicFile: dbi.FlatfileMapping.add (News, Note, URL, ... plugin databases)
+   writes in place -- the record at the end, the next-id header at offset 0.
+   Whatever prefix of its kernel writes survives a crash, the records are the
+   old ones or the old ones plus the new one, and every id in the file is below
+   the next id, so a restarted bot never hands an id out twice (which it did on
+   the pinned tree, finding C17.F47, fixed: the header is now written first;
+   the order is read from the source by the table extractor). *)
+Theorem C17_flat_add_never_reuses_an_id :
+  forall (st : flat) (s : str) k, flat_ok st = true ->
+  let st' := fapply (firstn k (add_effects st s)) st in
+  flat_ok st' = true /\
+  (fl_recs st' = fl_recs st \/ fl_recs st' = fl_recs st ++ [(fl_next st, s)]).
+Proof. exact C17_flat_add_never_reuses_an_id_l. Qed.
+Print Assumptions C17_flat_add_never_reuses_an_id.
